@@ -20,13 +20,13 @@ void *vp_heap_alloc(uint64_t n) { return malloc(n ? n : 1); }
 void vp_heap_free(void *p) { free(p); }
 #else
 /* constant-capacity block, logical size in a side table (see vp_rt.h) */
-uint64_t vp_blk_size[256];
+uint64_t vp_blk_size[1 << VP_OBJECT_BITS];
 void *vp_heap_alloc(uint64_t n) {
   VP_ASSERT(n <= VP_HEAP_CAP, "oversized allocation request");
   VP_ASSUME(n <= VP_HEAP_CAP);
   uint8_t *b = malloc(VP_HEAP_CAP);
   VP_ASSUME(b != 0);
-  vp_blk_size[(uint8_t)__CPROVER_POINTER_OBJECT(b)] = n;
+  vp_blk_size[__CPROVER_POINTER_OBJECT(b) & ((1 << VP_OBJECT_BITS) - 1)] = n;
   return b;
 }
 void vp_heap_free(void *p) {
